@@ -357,10 +357,11 @@ def case_temps(dc, case, res):
         return
     want = np.zeros((n, n))
     wd = []
-    for i in range(n):
-        for j in range(i):
-            want[i, j] = want[j, i] = MSEDistance(sigmoid=sig).distance(th.get_theta(i).predict_viability(None), th.get_theta(j).predict_viability(None))
-            wd.append(want[i, j])
+    with plain_logging():
+        for i in range(n):
+            for j in range(i):
+                want[i, j] = want[j, i] = MSEDistance(sigmoid=sig).distance(th.get_theta(i).predict_viability(None), th.get_theta(j).predict_viability(None))
+                wd.append(want[i, j])
     if not np.array_equal(dense, want):
         res.fail("matrix entry is not the metric applied to the two samples' predictions (predictions are temporaries of equal size)", case,
                  {"differing_cells": int(np.sum(dense != want))}, "equal to a fresh metric object on fresh arrays")
@@ -370,7 +371,16 @@ def case_temps(dc, case, res):
 
 
 def file_matches_memory(m, fn):
-    """the VALUES of the h5 datasets (whatever their dtype) are the filled prefix of the in-memory arrays; returns a description or None"""
+    """TIE KNOWLEDGE (checklist item 20): the harness's own raw look into the file, relying on the layout the model documents
+    (datasets row_indices / col_indices / values / size).  Returns a description of a mismatch, {"layout": ...} when the file is not laid
+    out like that (any exception of the raw access ends here, it is never the implementation's), or None."""
+    try:
+        return _file_matches_memory(m, fn)
+    except Exception as e:  # noqa
+        return {"layout": "%s: %s" % (type(e).__name__, e)}
+
+
+def _file_matches_memory(m, fn):
     import h5py
     cur = int(m.current_index)
     with h5py.File(fn, "r") as f:
@@ -419,6 +429,8 @@ def case_boundary(dc, case, res, tmp):
             files.append(fn)
             bad = file_matches_memory(m, fn)
             if bad:     # how a file encodes the matrix is not a clause of the property (tie); what load() makes of it is checked next
+                if "layout" in bad:
+                    res.count("layout.unexpected")
                 res.disagree("C07:file-encoding", {"case": dict(case, chunk=c)}, bad, "file values == memory values")
             back = dc.ChunkedDistanceMatrix.load(fn)
             cur = int(m.current_index)
@@ -565,7 +577,64 @@ def make_cli_inputs(case, tmp):
     return data_fn, theta_fns
 
 
+REC = {"metric_calls": [], "scorer_dense": None}
+
+
+def install_plugins():
+    """plug-in classes the CLIs find by introspection (an attribute on a batchie module): a metric that records what it is handed,
+    a scorer that records the distance matrix `calculate_scores.main()` hands to the scorer after combining the chunk files"""
+    import batchie.distance.mse as mse_mod
+    import batchie.scoring.size as size_mod
+    from batchie.core import Scorer
+    if getattr(mse_mod, "VerifRecMSE", None) is None:
+        class VerifRecMSE(mse_mod.MSEDistance):
+            def distance(self, a, b):
+                REC["metric_calls"].append((np.asarray(a).tobytes(), np.asarray(b).tobytes()))
+                return super().distance(a, b)
+        mse_mod.VerifRecMSE = VerifRecMSE
+    if getattr(size_mod, "VerifRecScorer", None) is None:
+        class VerifRecScorer(Scorer):
+            def score(self, plates, distance_matrix, samples, rng, progress_bar):
+                try:
+                    REC["scorer_dense"] = np.array(distance_matrix.to_dense())
+                except Exception as e:  # noqa
+                    REC["scorer_dense"] = "err:" + type(e).__name__
+                return {k_: 0.0 for k_ in plates}
+        size_mod.VerifRecScorer = VerifRecScorer
+
+
+@contextlib.contextmanager
+def maybe_verbose(case):
+    """class verbose-logging: cases that carry "verbose" run with the `batchie` logger at DEBUG and a formatting sink"""
+    if case.get("verbose"):
+        with common.verbose_logging():
+            yield
+    else:
+        yield
+
+
+@contextlib.contextmanager
+def plain_logging():
+    """REFERENCE values are computed with debug logging off, whatever the case runs under (otherwise code that only runs under
+    debug logging would change the reference together with the result)"""
+    lg = logging.getLogger("batchie")
+    old_level, old_handlers, old_disable = lg.level, list(lg.handlers), logging.root.manager.disable
+    lg.setLevel(logging.WARNING)
+    lg.handlers = []
+    try:
+        yield
+    finally:
+        lg.handlers = old_handlers
+        lg.setLevel(old_level)
+        logging.disable(old_disable)
+
+
 def case_cli(dc, case, res, tmp, tie=None):
+    with maybe_verbose(case):
+        return _case_cli(dc, case, res, tmp, tie)
+
+
+def _case_cli(dc, case, res, tmp, tie=None):
     """case: seed, n (thetas >= 1), n_chunks, order, arity, rows, D, n_drugs, n_samples, split, sigmoid (None = default)"""
     from scipy.special import expit
     from batchie.cli import calculate_distance_matrix as cli
@@ -573,14 +642,20 @@ def case_cli(dc, case, res, tmp, tie=None):
     from batchie.data import Screen
     n, k, order = case["n"], case["n_chunks"], case["order"]
     data_fn, theta_fns = make_cli_inputs(case, tmp)
+    install_plugins()
+    received = {}
     def run_chunk(c, kk, out):
         """the CLI for the default metric parameters; the CLI cannot pass optional constructor arguments such as
         sigmoid (cast_dict_to_type only knows required ones -> KeyError), so sigmoid=False goes through main()'s body by hand"""
         if case.get("sigmoid") is None:
-            argv = ["calculate_distance_matrix", "--distance-metric", "MSEDistance", "--n-chunks", str(kk), "--chunk-index", str(c),
-                    "--data", data_fn, "--thetas"] + theta_fns + ["--output", out]
+            argv = ["calculate_distance_matrix", "--distance-metric", "VerifRecMSE" if case.get("rec") else "MSEDistance",
+                    "--n-chunks", str(kk), "--chunk-index", str(c),
+                    "--data", data_fn, "--thetas"] + theta_fns + ["--output", out] + (["--verbose"] if case.get("verbose") else [])
+            del REC["metric_calls"][:]
             with quiet_cli(argv), contextlib.redirect_stdout(io.StringIO()):
                 cli.main()
+            if case.get("rec"):
+                received[(c, kk)] = list(REC["metric_calls"])
         else:
             from batchie.distance.mse import MSEDistance
             with contextlib.redirect_stdout(io.StringIO()):
@@ -634,14 +709,49 @@ def case_cli(dc, case, res, tmp, tie=None):
     # That the metric is the mean squared difference is the model's business: compared below as a tie, not as a violation.
     want = np.zeros((n, n))
     formula = np.zeros((n, n))
-    for i in range(n):
-        for j in range(i):
-            mo = MSEDistance() if case.get("sigmoid") is None else MSEDistance(sigmoid=case["sigmoid"])
-            want[i, j] = want[j, i] = mo.distance(all_thetas[i].predict_viability(screen), all_thetas[j].predict_viability(screen))
-            a, b = (expit(preds[i]), expit(preds[j])) if sig else (preds[i], preds[j])
-            formula[i, j] = formula[j, i] = np.mean((a - b) ** 2)
+    with plain_logging():
+        preds = [t.predict_viability(screen) for t in all_thetas]
+        for i in range(n):
+            for j in range(i):
+                mo = MSEDistance() if case.get("sigmoid") is None else MSEDistance(sigmoid=case["sigmoid"])
+                want[i, j] = want[j, i] = mo.distance(all_thetas[i].predict_viability(screen), all_thetas[j].predict_viability(screen))
+                a, b = (expit(preds[i]), expit(preds[j])) if sig else (preds[i], preds[j])
+                formula[i, j] = formula[j, i] = np.mean((a - b) ** 2)
     if not np.allclose(want, formula, rtol=1e-12, atol=1e-15):
         res.disagree("C07:cli-metric-formula", {"case": case}, "metric(pred_i, pred_j)", "mean squared difference of (expit of) the predictions")
+    # class entry-point: what the metric RECEIVED from calculate_distance_matrix.main(): for every pair of this chunk, in the chunk's
+    # order, the prediction of sample i and the prediction of sample j (on the whole screen)
+    for (c, kk), calls in received.items():
+        mc = dc.ChunkedDistanceMatrix.load(outs[c]) if kk == k else None
+        if mc is None:
+            continue
+        pairs_c = [(int(mc.row_indices[i]), int(mc.col_indices[i])) for i in range(mc.current_index)]
+        want_calls = [(np.asarray(preds[i]).tobytes(), np.asarray(preds[j]).tobytes()) for (i, j) in pairs_c]
+        if len(calls) != len(pairs_c) or sorted(calls) != sorted(want_calls):
+            res.fail("the metric did not receive exactly the predictions of the pairs of its chunk (CLI calculate_distance_matrix)", dict(case, chunk=c),
+                     {"calls": len(calls), "matching": sum(1 for a_ in calls if a_ in want_calls)}, {"calls": len(pairs_c)})
+        elif calls != want_calls:
+            res.disagree("C07:cli-metric-call-order", {"case": dict(case, chunk=c)}, "other order", "chunk order, (pred_i, pred_j)")
+    # class entry-point: calculate_scores.main() combines the chunk files it is given (in the given order, repeats included) and
+    # hands ONE matrix to the scorer: that matrix must be the complete matrix
+    if case.get("scores_cli"):
+        from batchie.cli import calculate_scores as cs_cli
+        sc_out = os.path.join(tmp, "scores.h5")
+        argv = ["calculate_scores", "--data", data_fn, "--thetas"] + theta_fns + ["--distance-matrix"] + [outs[c] for c in order] + \
+               ["--scorer", "VerifRecScorer", "--output", sc_out, "--seed", "0"] + (["--verbose"] if case.get("verbose") else [])
+        REC["scorer_dense"] = None
+        try:
+            with quiet_cli(argv), contextlib.redirect_stdout(io.StringIO()):
+                cs_cli.main()
+            got = REC["scorer_dense"]
+            if got is None or isinstance(got, str) or got.shape != want.shape or not np.array_equal(got, want):
+                res.fail("the scorer did not receive the complete distance matrix from calculate_scores.main() (chunk files combined there)", case,
+                         got if (got is None or isinstance(got, str)) else {"max_abs_diff": float(np.max(np.abs(got - want))) if got.shape == want.shape else str(got.shape)},
+                         "the matrix of the metric applied to the samples' predictions")
+        except BaseException as e:  # noqa
+            res.fail("CLI calculate_scores raises on the chunk files", case, "%s: %s" % (type(e).__name__, e), "scores written")
+        if os.path.exists(sc_out):
+            os.unlink(sc_out)
     loaded = {c: dc.ChunkedDistanceMatrix.load(outs[c]) for c in range(k)}
     nonempty = sum(1 for c in range(k) if loaded[c].current_index > 0)
     for c in range(k):
@@ -649,6 +759,13 @@ def case_cli(dc, case, res, tmp, tie=None):
         pairs = [(int(m.row_indices[i]), int(m.col_indices[i])) for i in range(m.current_index)]
         if tie is not None:
             tie.add("chunk %d %d %d" % (n, c, k), show_pairs(pairs), ("cli-chunk", n, c, k))
+    # the chunk files the CLI wrote partition the work: pairwise disjoint, together every pair once, sizes differing by at most one
+    cpairs = {c: [(int(loaded[c].row_indices[i]), int(loaded[c].col_indices[i])) for i in range(loaded[c].current_index)] for c in range(k)}
+    flat = [p_ for c in range(k) for p_ in cpairs[c]]
+    sizes = [len(cpairs[c]) for c in range(k)]
+    if sorted(flat) != [(i, j) for i in range(n) for j in range(i)] or max(sizes) - min(sizes) > 1:
+        res.fail("the chunk files written by calculate_distance_matrix.main() do not partition the pairs into chunks of nearly equal size", case,
+                 {"sizes": sizes, "entries": len(flat), "distinct": len(set(flat))}, "every pair in exactly one chunk file, sizes differ by at most one")
     try:
         if case.get("share"):      # the SAME loaded object for every repetition of a chunk index
             objs = {c: dc.ChunkedDistanceMatrix.load(outs[c]) for c in set(order)}
@@ -714,7 +831,8 @@ def case_metric(case, res, tie=None):
     # its answers must be those of a fresh object
     m = _SHARED_METRIC.setdefault(bool(sig), MSEDistance(sigmoid=sig))
     try:
-        fresh = MSEDistance(sigmoid=sig).distance(a0.copy(), b0.copy())
+        with plain_logging():
+            fresh = MSEDistance(sigmoid=sig).distance(a0.copy(), b0.copy())
         # the metric laws, every call on fresh arrays
         dab, dba, daa = m.distance(view(a0), view(b0)), m.distance(view(b0), view(a0)), m.distance(*(lambda v: (v, v))(view(a0)))
         dac = m.distance(view(a0), view(a0))        # identical predictions held in two different arrays
@@ -759,6 +877,45 @@ def case_metric(case, res, tie=None):
 
 
 # ------------------------------------------------------------------------------------------------
+
+def verbose_aware(fn, pos):
+    def wrapped(*a, **kw):
+        with maybe_verbose(a[pos]):
+            return fn(*a, **kw)
+    wrapped.__name__ = fn.__name__
+    return wrapped
+
+
+def case_loadvalues(dc, case, res, tmp):
+    """LOAD path (item 19): a file whose entries are NOT in enumeration order and whose values include -0.0 / huge / tiny finite numbers
+    (fail: the loaded matrix must hold the same pairs with the same values) and NaN / +-inf (outside "distance values": tie only)."""
+    n, entries = case["n"], case["entries"]
+    m = dc.ChunkedDistanceMatrix(n)
+    for (i, j, v) in entries:
+        m.add_value(i, j, float(v))
+    fn = os.path.join(tmp, "lv.h5")
+    m.save(fn)
+    back = dc.ChunkedDistanceMatrix.load(fn)
+    os.unlink(fn)
+    cur = int(m.current_index)
+    a = [(int(m.row_indices[i]), int(m.col_indices[i]), f2bits(m.values[i])) for i in range(cur)]
+    b = [(int(back.row_indices[i]), int(back.col_indices[i]), f2bits(back.values[i])) for i in range(int(back.current_index))]
+    finite = lambda l: sorted(e for e in l if np.isfinite(bits2f(e[2])))      # noqa: E731
+    if finite(a) != finite(b) or len(a) != len(b):
+        res.fail("a loaded matrix does not hold the pairs and values that were saved (unsorted entries, signed zero, extreme magnitudes)", case,
+                 {"saved": len(a), "loaded": len(b)}, "same pairs, same values")
+    elif a != b:      # order of the entries, NaN / inf payloads: the model's business
+        res.disagree("C07:load-rewrites-values", {"case": case}, "order or non-finite values changed by load", "identical")
+
+
+case_partition = verbose_aware(case_partition, 1)
+case_assembly = verbose_aware(case_assembly, 1)
+case_temps = verbose_aware(case_temps, 1)
+case_boundary = verbose_aware(case_boundary, 1)
+case_handbuilt = verbose_aware(case_handbuilt, 1)
+case_metric = verbose_aware(case_metric, 0)
+case_loadvalues = verbose_aware(case_loadvalues, 1)
+
 
 SMALL_ASSEMBLIES = [
     {"n": 2, "n_chunks": 1, "zmod": 0, "order": [0], "dropped": 0},
@@ -862,7 +1019,8 @@ def gen_cli(rng):
     return {"kind": "cli", "seed": rng.randrange(2 ** 31), "n": n, "n_chunks": k, "order": order, "arity": rng.choice([1, 2, 2]),
             "rows": rng.randint(3, 9), "D": rng.choice([1, 2, 3]), "n_drugs": rng.randint(2, 4), "n_samples": rng.randint(1, 3),
             "split": rng.randint(0, n), "sigmoid": rng.choice([None, None, None, False]),
-            "partial": rng.random() < 0.6, "dup": rng.choice([None, None, "pair", "pair", "all"]), "share": rng.random() < 0.3}
+            "partial": rng.random() < 0.6, "dup": rng.choice([None, None, "pair", "pair", "all"]), "share": rng.random() < 0.3,
+            "rec": rng.random() < 0.5, "scores_cli": rng.random() < 0.4, "verbose": rng.random() < 0.25}
 
 
 def run(ctx, res):
@@ -891,7 +1049,10 @@ def run(ctx, res):
             res.count("class.layout-dtype")
         if k > N:
             res.count("class.size-boundaries")
-        case_partition(dc, {"kind": "partition", "n": n, "n_chunks": k, "np_int": npi}, res, tie, rng, budget_big)
+        vb = (n * 7 + k) % 9 == 0 or (n, k) in ((0, 1), (1, 1), (3, 5))
+        if vb:
+            res.count("class.verbose-logging")
+        case_partition(dc, {"kind": "partition", "n": n, "n_chunks": k, "np_int": npi, "verbose": vb}, res, tie, rng, budget_big)
     # malformed stream: errors on both sides
     # (.., -1, 2), (.., -2, 3): negative start -> islice ValueError; (3, -3, -2): start 3, end 2 -> negative islice count
     for (n, c, k) in [(3, 0, 0), (3, 3, 3), (3, 5, 2), (4, -1, 0), (0, 0, 1), (1, 0, 1), (2, 0, 5), (3, -1, 2), (5, -2, 3), (3, -3, -2),
@@ -914,6 +1075,9 @@ def run(ctx, res):
             else:
                 case, has_reps = gen_assembly(rng)
             res.evaluations += 1
+            if t % 6 == 3:
+                case["verbose"] = True
+                res.count("class.verbose-logging")
             nonempty = case_assembly(dc, case, res, tmp, tie, tie_calc=(t < 25 or rng.random() < 0.1))
             if nonempty is not None and nonempty >= 2:
                 res.nontrivial.add(("asm", case["n"], case["n_chunks"], case["zmod"], tuple(case["order"])))
@@ -933,6 +1097,9 @@ def run(ctx, res):
             case = {"kind": "assembly", "n": n_, "n_chunks": k_, "zmod": prng.choice([0, 1, 2]), "order": order_ + ([order_[0]] if prng.random() < 0.3 else []),
                     "dropped": None, "share": prng.random() < 0.3, "np_int": prng.random() < 0.3}
             res.evaluations += 1
+            if (n_ + k_ + order_[0]) % 4 == 0:
+                case["verbose"] = True
+                res.count("class.verbose-logging")
             case_assembly(dc, case, res, tmp, tie)
             res.count("assembly.all_orders")
             count_assembly_classes(res, case)
@@ -954,6 +1121,9 @@ def run(ctx, res):
             case = {"kind": "temps", "n": n_, "n_chunks": k_, "order": order_, "L": trng.choice([1, 5, 40]), "seed": trng.randrange(10 ** 6),
                     "sigmoid": trng.choice([True, False])}
             res.evaluations += 1
+            if t % 3 == 0:
+                case["verbose"] = True
+                res.count("class.verbose-logging")
             case_temps(dc, case, res)
             res.count("class.identity-cache")
         # ---------- B1c. class size-boundaries x dtype: sizes straddling 127/128 and 255/256 -----------------------------------
@@ -964,6 +1134,9 @@ def run(ctx, res):
                                  {"kind": "boundary", "n": 200, "n_chunks": 2, "mode": "full", "order": [1, 0]}], [])
         for case in bcases:
             res.evaluations += 1
+            if case["n"] in (129, 256):
+                case["verbose"] = True
+                res.count("class.verbose-logging")
             case_boundary(dc, case, res, tmp)
             res.count("class.size-boundaries")
             res.count("class.layout-dtype")
@@ -975,7 +1148,24 @@ def run(ctx, res):
             case = dict(SMALL_HANDBUILT[t], kind="handbuilt") if t < len(SMALL_HANDBUILT) else gen_handbuilt(rng)
             res.evaluations += 1
             res.count("handbuilt." + case["mode"])
+            if t % 8 == 0:
+                case["verbose"] = True
+                res.count("class.verbose-logging")
             case_handbuilt(dc, case, res, tmp, tie)
+        # ---------- B2c. LOAD path: unsorted entries, signed zero, extreme and non-finite values ---------------------------------
+        lrng = ctx.subrng("loadvalues")
+        for t in range(ctx.scale(12, 60)):
+            n_ = lrng.choice([3, 4, 6])
+            allp = [(i, j) for i in range(n_) for j in range(i)]
+            lrng.shuffle(allp)
+            vals = [0.0, -0.0, 1e-310, 1.7e308, 5e-324, 3.5, float("nan"), float("inf"), float("-inf"), 2.0 ** -1074]
+            ents = [[i, j, lrng.choice(vals)] for (i, j) in allp[:lrng.randint(1, len(allp))]]
+            case = {"kind": "loadvalues", "n": n_, "entries": ents, "verbose": t % 2 == 0}
+            res.evaluations += 1
+            res.count("load.values")
+            if case["verbose"]:
+                res.count("class.verbose-logging")
+            case_loadvalues(dc, case, res, tmp)
         # ---------- B2a. concat's refusals: no matrix at all, matrices of different sizes (tie only) ------------------------
         rng = ctx.subrng("mismatch")
         try:
@@ -1030,11 +1220,19 @@ def run(ctx, res):
         rng = ctx.subrng("cli")
         for t in range(ctx.scale(20, 200, 80)):
             case = gen_cli(rng)
+            if t < 2:       # in every run: both entry points with recording plug-ins, once verbose and once not
+                case.update(sigmoid=None, rec=True, scores_cli=True, verbose=(t == 0), n=max(case["n"], 3))
             res.evaluations += 1
             ne = case_cli(dc, case, res, tmp, tie)
             res.count("cli.arity%d" % case["arity"])
             res.count("cli.sigmoid_%s" % case["sigmoid"])
             res.count("cli.dup_%s" % case["dup"])
+            if case["sigmoid"] is None:
+                res.count("class.entry-point.calculate_distance_matrix")
+            if case["scores_cli"]:
+                res.count("class.entry-point.calculate_scores")
+            if case["verbose"]:
+                res.count("class.verbose-logging")
             res.count("cli.partially_observed" if case["partial"] else "cli.fully_observed")
             if len(case["order"]) > case["n_chunks"]:
                 res.count("cli.repeated_chunk_files")
@@ -1086,7 +1284,10 @@ def run(ctx, res):
                 res.count("class.falsy-boundaries", 2)      # distance exactly 0.0
             for sig in (True, False):
                 res.evaluations += 1
-                case_metric({"kind": "metric", "a": a.tolist(), "b": b.tolist(), "sigmoid": sig, "layout": layout}, res, tie if t < 200 else None)
+                if t % 5 == 0:
+                    res.count("class.verbose-logging")
+                case_metric({"kind": "metric", "a": a.tolist(), "b": b.tolist(), "sigmoid": sig, "layout": layout, "verbose": t % 5 == 0}, res,
+                            tie if t < 200 else None)
         res.count("metric.cases", nm * 2)
     finally:
         shutil.rmtree(tmp, ignore_errors=True)
@@ -1117,6 +1318,8 @@ def replay(ctx, case, res):
             case_boundary(dc, case, res, tmp)
         elif kind == "temps":
             case_temps(dc, case, res)
+        elif kind == "loadvalues":
+            case_loadvalues(dc, case, res, tmp)
         elif kind == "cli":
             case_cli(dc, case, res, tmp)
         elif kind == "metric":
